@@ -356,17 +356,31 @@ Proof.
     + destruct (derived c (k_be k)); [right; apply andb_true_iff; auto|left; reflexivity].
 Qed.
 
+Lemma builder_b_iff c o : builder_b c o = true <-> builder_ok c o.
+Proof.
+  unfold builder_b, builder_ok. destruct (o_rb o) as [r|].
+  - rewrite orb_true_iff, negb_true_iff, andb_true_iff, Z.leb_le, forallb_forall. split.
+    + intros [H|[H0 H]] r' E R; [congruence|]. inversion E; subst r'. split; [exact H0|].
+      intros k x Hk Hx. specialize (H k Hk). rewrite Hx in H. apply Z.leb_le in H. exists r. lia.
+    + intros H. destruct (routed c); [right|left; reflexivity].
+      destruct (H r eq_refl eq_refl) as [H0 H1]. split; [exact H0|].
+      intros k Hk. destruct (k_dl k) as [x|] eqn:E; auto. apply Z.leb_le.
+      destruct (H1 k x Hk E) as (t & Ht & Hx). lia.
+  - split; [intros _ r E; discriminate|reflexivity].
+Qed.
+
 Lemma spec_b_iff F c slack o : spec_b F c slack o = true <-> Spec F c slack o.
 Proof.
   unfold spec_b, Spec. rewrite !andb_true_iff, !orb_true_iff, negb_true_iff, Nat.eqb_eq, !forallb_forall.
+  rewrite builder_b_iff.
   split.
-  - intros (((((A & B) & C) & D) & E) & G).
-    split; [exact A|]. split; [exact B|]. split; [exact C|]. split; [|split].
+  - intros ((((((A & B) & C) & R) & D) & E) & G).
+    split; [exact A|]. split; [exact B|]. split; [exact C|]. split; [exact R|]. split; [|split].
     + intros k Hk. apply call_b_iff. apply D. exact Hk.
     + intros Ht d Hd. destruct E as [E|E]; [congruence|]. rewrite Hd in E. apply Z.leb_le. exact E.
     + intros Ht i Hi. destruct G as [G|G]; [congruence|]. apply mem_nat_In. apply G. exact Hi.
-  - intros (A & B & C & D & E & G).
-    split; [split; [split; [split; [split; [exact A|exact B]|exact C]|]|]|].
+  - intros (A & B & C & R & D & E & G).
+    split; [split; [split; [split; [split; [split; [exact A|exact B]|exact C]|exact R]|]|]|].
     + intros k Hk. apply call_b_iff. apply D. exact Hk.
     + destruct (o_tainted o); [left; reflexivity|right].
       destruct (max_dl (o_calls o)) as [d|]; auto. apply Z.leb_le. apply E; reflexivity.
@@ -568,6 +582,16 @@ Proof.
 Qed.
 
 (* ---------------------------------------------------------------------------------- *)
+(* the handler starts the endpoint clock before it builds the proxy request: however long the
+   request builder takes (it returns at any rb_out), the time is counted *)
+Lemma builder_time_counted F c clk i j rb_in :
+  routed c = true -> clk SRouter <= rb_in ->
+  exists x, deadline (ctx_call F c clk i j) = Some x /\ x <= rb_in + c_T c.
+Proof.
+  intros R H. destruct (deadline_router F c clk i j R) as (x & E & Hx). exists x. split; auto. lia.
+Qed.
+
+(* ---------------------------------------------------------------------------------- *)
 (* the model meets the oracle: the observation the model predicts - every attempt of every
    called backend invoked at [inv] under the model's context, sampled against the cancel
    functions called on the return paths - passes spec_b *)
@@ -583,7 +607,7 @@ Definition model_calls F c clk p called now inv : list call :=
 
 Definition model_obs F c clk p called now inv ret keys : obs :=
   {| o_calls := model_calls F c clk p called now inv; o_returned := true; o_ret := ret; o_keys := keys;
-     o_leaked := 0; o_released := false; o_tainted := false |}.
+     o_leaked := 0; o_released := false; o_rb := Some inv; o_tainted := false |}.
 
 Lemma min_inv_const (l : list call) inv k :
   In k l -> (forall k', In k' l -> k_inv k' = inv) -> min_inv l = inv.
@@ -611,7 +635,12 @@ Lemma model_meets_oracle F c clk p called now inv ret keys slack :
   spec_b F c slack (model_obs F c clk p called now inv ret keys) = true.
 Proof.
   intros Hclk Hret Hkeys. apply spec_b_iff. unfold Spec, model_obs; simpl.
-  split; [reflexivity|]. split; [reflexivity|]. split; [reflexivity|]. split; [|split].
+  split; [reflexivity|]. split; [reflexivity|]. split; [reflexivity|]. split; [|split; [|split]].
+  - unfold builder_ok; simpl. intros r E R. inversion E; subst r. pose proof (Hclk SRouter) as C1.
+    split; [lia|]. intros k x Hk Hx.
+    destruct (model_calls_inv _ _ _ _ _ _ _ _ Hk) as (i & j & Hi & ->). simpl in Hx.
+    destruct (deadline_router F c clk i j R) as (y & Ey & Hy). exists (clk SRouter).
+    split; [lia|]. rewrite Hx in Ey. inversion Ey; subst. exact Hy.
   - intros k Hk. destruct (model_calls_inv _ _ _ _ _ _ _ _ Hk) as (i & j & Hi & ->).
     set (calls := model_calls F c clk p called now inv) in *.
     set (k := model_call F c clk p called now inv i j) in *.
